@@ -20,7 +20,7 @@
 use bytes::Bytes;
 use rand::Rng as _;
 use redis_sim::io::TimeSource;
-use redis_sim::production::{ShardConfig, ShardedActorState};
+use redis_sim::production::{PerformanceConfig, ShardConfig, ShardedActorState};
 use redis_sim::redis::{Command, RespValue, SDS};
 use serde::{Deserialize, Serialize};
 use serde_json::{json, Value};
@@ -39,6 +39,8 @@ const KEYPOOL: [&str; 28] = [
     "abcdefg", "abcdefgh", "abcdefghi", "0123456789abcdef", "0123456789abcdefg",
 ];
 const JUNK_KEY: &str = "c02-junk";
+const NEVER_KEY: &str = "c02-never"; // never written: DEL / EXISTS of [k, never] answers for k alone
+const NFILL: usize = 128;           // filler keys for large pipeline batches (not part of any window)
 const PAD_KEY: &str = "c02-pad";
 const SCRIPT_GETSET: &str = "local v = redis.call('GET', KEYS[1]); local s = redis.call('SET', KEYS[1], ARGV[1]); return {v or false, s}";
 const SCRIPT_INCRGET: &str = "local n = redis.call('INCR', KEYS[1]); local v = redis.call('GET', KEYS[1]); return {n, v or false}";
@@ -64,6 +66,32 @@ impl TimeSource for Clock {
 type Node = ShardedActorState<Clock>;
 fn node(n: usize, clock: &Clock) -> Node {
     ShardedActorState::with_config_and_time_source(ShardConfig::with_shards(n), clock.clone())
+}
+/// A node with a response pool of the given (capacity, prewarm) and optionally the adaptive actor.
+fn node_with(n: usize, clock: &Clock, pool: (usize, usize), adaptive: bool) -> Node {
+    let mut perf = PerformanceConfig::default();
+    perf.num_shards = n;
+    perf.response_pool.capacity = pool.0;
+    perf.response_pool.prewarm = pool.1;
+    let sc = if adaptive { ShardConfig::with_shards(n).with_adaptive() } else { ShardConfig::with_shards(n) };
+    ShardedActorState::with_perf_config_and_time_source(&perf, sc, clock.clone())
+}
+
+/// Coq string literal with the hex of `b`; long values in pieces (`cat [..]`, Corr/C02.v).
+fn hx(b: &[u8]) -> String {
+    if b.len() <= 4000 { return chex(b); }
+    // the longest run of one byte: written as `big head ff m tail`
+    let (mut best, mut best_at, mut i) = (0usize, 0usize, 0usize);
+    while i < b.len() {
+        let mut j = i;
+        while j < b.len() && b[j] == b[i] { j += 1; }
+        if j - i > best { best = j - i; best_at = i; }
+        i = j;
+    }
+    if best >= 1000 {
+        return format!("(big {} {} {}%N {})", hx(&b[..best_at]), chex(&b[best_at..best_at + 1]), best, hx(&b[best_at + best..]));
+    }
+    format!("(cat {})", clist(b.chunks(4000), |c| chex(c)))
 }
 
 type B = Vec<u8>;
@@ -117,6 +145,7 @@ enum Prim {
     HSet(B, B),
     HDel(B),
     HGetAll,
+    Flush, // FLUSHDB / FLUSHALL, seen from one key
     // ---- commands that mention time
     Advance(u64),      // the harness moves the clock to this virtual instant
     SetPx(B, u64),     // SET k v PX ms
@@ -151,7 +180,7 @@ fn prim_name(p: &Prim) -> &'static str {
         Prim::SetOpt(..) => "SET-GET", Prim::GetSet(_) => "GETSET", Prim::GetDel => "GETDEL", Prim::SetRange(..) => "SETRANGE",
         Prim::Exists => "EXISTS", Prim::LPush(_) => "LPUSH", Prim::RPush(_) => "RPUSH", Prim::LPop => "LPOP", Prim::RPop => "RPOP",
         Prim::LRange => "LRANGE", Prim::SAdd(_) => "SADD", Prim::SRem(_) => "SREM", Prim::SMembers => "SMEMBERS",
-        Prim::HSet(..) => "HSET", Prim::HDel(_) => "HDEL", Prim::HGetAll => "HGETALL",
+        Prim::HSet(..) => "HSET", Prim::HDel(_) => "HDEL", Prim::HGetAll => "HGETALL", Prim::Flush => "FLUSH",
         Prim::Advance(_) => "CLOCK", Prim::SetPx(..) => "SET-PX", Prim::SetEx(..) => "SET-EX", Prim::SetKeep(_) => "SET-KEEPTTL",
         Prim::PExpire(..) => "PEXPIRE", Prim::Expire(..) => "EXPIRE", Prim::Persist => "PERSIST", Prim::Ttl => "TTL", Prim::Pttl => "PTTL",
         Prim::GetEx(_) => "GETEX",
@@ -160,32 +189,33 @@ fn prim_name(p: &Prim) -> &'static str {
 fn prim_term(p: &Prim) -> String {
     match p {
         Prim::Get => "G".into(),
-        Prim::Set(v) => format!("St {}", chex(v)),
+        Prim::Set(v) => format!("St {}", hx(v)),
         Prim::IncrBy(1) => "Ic".into(),
         Prim::IncrBy(z) => format!("Ib ({})%Z", z),
-        Prim::Append(v) => format!("Ap {}", chex(v)),
+        Prim::Append(v) => format!("Ap {}", hx(v)),
         Prim::Del => "Dl".into(),
-        Prim::SetNx(v) => format!("Nx {}", chex(v)),
-        Prim::SetOpt(v, nx, xx, get) => format!("So {} {} {} {}", chex(v), cbool(*nx), cbool(*xx), cbool(*get)),
-        Prim::GetSet(v) => format!("Gs {}", chex(v)),
+        Prim::SetNx(v) => format!("Nx {}", hx(v)),
+        Prim::SetOpt(v, nx, xx, get) => format!("So {} {} {} {}", hx(v), cbool(*nx), cbool(*xx), cbool(*get)),
+        Prim::GetSet(v) => format!("Gs {}", hx(v)),
         Prim::GetDel => "Gd".into(),
-        Prim::SetRange(o, v) => format!("Sr {} {}", o, chex(v)),
+        Prim::SetRange(o, v) => format!("Sr {} {}", o, hx(v)),
         Prim::Exists => "Ex".into(),
-        Prim::LPush(v) => format!("Lp {}", chex(v)),
-        Prim::RPush(v) => format!("Rp {}", chex(v)),
+        Prim::LPush(v) => format!("Lp {}", hx(v)),
+        Prim::RPush(v) => format!("Rp {}", hx(v)),
         Prim::LPop => "Lo".into(),
         Prim::RPop => "Ro".into(),
         Prim::LRange => "Lr".into(),
-        Prim::SAdd(v) => format!("Sa {}", chex(v)),
-        Prim::SRem(v) => format!("Sm {}", chex(v)),
+        Prim::SAdd(v) => format!("Sa {}", hx(v)),
+        Prim::SRem(v) => format!("Sm {}", hx(v)),
         Prim::SMembers => "Ms".into(),
-        Prim::HSet(f, v) => format!("Hs {} {}", chex(f), chex(v)),
-        Prim::HDel(f) => format!("Hd {}", chex(f)),
+        Prim::HSet(f, v) => format!("Hs {} {}", hx(f), hx(v)),
+        Prim::HDel(f) => format!("Hd {}", hx(f)),
         Prim::HGetAll => "Ha".into(),
+        Prim::Flush => "Fl".into(),
         Prim::Advance(t) => format!("Ad {}%N", t),
-        Prim::SetPx(v, ms) => format!("Sx {} {}%N", chex(v), ms),
-        Prim::SetEx(v, s) => format!("Sx {} {}%N", chex(v), s * 1000),
-        Prim::SetKeep(v) => format!("Sk {}", chex(v)),
+        Prim::SetPx(v, ms) => format!("Sx {} {}%N", hx(v), ms),
+        Prim::SetEx(v, s) => format!("Sx {} {}%N", hx(v), s * 1000),
+        Prim::SetKeep(v) => format!("Sk {}", hx(v)),
         Prim::PExpire(ms, f) => format!("Xp {}%N {} {} {} {}", ms, cbool(f.0), cbool(f.1), cbool(f.2), cbool(f.3)),
         Prim::Expire(sec, f) => format!("Xp {}%N {} {} {} {}", sec * 1000, cbool(f.0), cbool(f.1), cbool(f.2), cbool(f.3)),
         Prim::Persist => "Pe".into(),
@@ -200,23 +230,23 @@ fn prim_term(p: &Prim) -> String {
 fn rep_term(r: &Rep) -> String {
     match r {
         Rep::Val(None) => "V0".into(),
-        Rep::Val(Some(v)) => format!("Vs {}", chex(v)),
+        Rep::Val(Some(v)) => format!("Vs {}", hx(v)),
         Rep::Ok => "OK".into(),
         Rep::Int(n) => format!("Ni ({})%Z", n),
         Rep::ErrNotInt => "ENI".into(),
         Rep::ErrOverflow => "EOV".into(),
         Rep::WrongType => "EWT".into(),
-        Rep::Arr(l) => format!("Ar {}", clist(l.iter(), |v| chex(v))),
-        Rep::Other(s) => format!("EX {}", chex(s.as_bytes())),
+        Rep::Arr(l) => format!("Ar {}", clist(l.iter(), |v| hx(v))),
+        Rep::Other(s) => format!("EX {}", hx(s.as_bytes())),
     }
 }
 fn state_term(s: &State) -> String {
     match s {
         State::None => "I0".into(),
-        State::Str(v) => format!("(IS {})", chex(v)),
-        State::List(l) => format!("(IL {})", clist(l.iter(), |v| chex(v))),
-        State::Set(l) => format!("(IT {})", clist(l.iter(), |v| chex(v))),
-        State::Hash(l) => format!("(IH {})", clist(l.iter(), |(f, v)| format!("({}, {})", chex(f), chex(v)))),
+        State::Str(v) => format!("(IS {})", hx(v)),
+        State::List(l) => format!("(IL {})", clist(l.iter(), |v| hx(v))),
+        State::Set(l) => format!("(IT {})", clist(l.iter(), |v| hx(v))),
+        State::Hash(l) => format!("(IH {})", clist(l.iter(), |(f, v)| format!("({}, {})", hx(f), hx(v)))),
     }
 }
 fn bulk_list(r: &RespValue) -> Option<Vec<B>> {
@@ -259,7 +289,7 @@ fn shape_ok(p: &Prim, r: &Rep) -> bool {
         Prim::Del | Prim::Exists | Prim::SetNx(_) => matches!(r, Rep::Int(0) | Rep::Int(1)),
         Prim::SAdd(_) | Prim::SRem(_) | Prim::HSet(..) | Prim::HDel(_) => wt || matches!(r, Rep::Int(0) | Rep::Int(1)),
         Prim::LRange | Prim::SMembers | Prim::HGetAll => wt || matches!(r, Rep::Arr(_)),
-        Prim::Advance(_) | Prim::SetPx(..) | Prim::SetEx(..) | Prim::SetKeep(_) => matches!(r, Rep::Ok),
+        Prim::Flush | Prim::Advance(_) | Prim::SetPx(..) | Prim::SetEx(..) | Prim::SetKeep(_) => matches!(r, Rep::Ok),
         Prim::PExpire(..) | Prim::Expire(..) | Prim::Persist => matches!(r, Rep::Int(0) | Rep::Int(1)),
         Prim::Ttl | Prim::Pttl => matches!(r, Rep::Int(n) if *n >= -2),
         Prim::GetEx(_) => wt || matches!(r, Rep::Val(_)),
@@ -300,6 +330,7 @@ fn apply(st: &State, p: &Prim) -> (State, Rep) {
             _ => wt(),
         },
         Prim::Del => (S::None, Rep::Int(present as i64)),
+        Prim::Flush => (S::None, Rep::Ok),
         Prim::SetNx(v) => if present { (st.clone(), Rep::Int(0)) } else { (S::Str(v.clone()), Rep::Int(1)) },
         Prim::SetOpt(v, nx, xx, get) => {
             let old = match st { S::Str(b) => Some(b.clone()), _ => None };
@@ -561,6 +592,8 @@ enum Via {
     Pooled,
     Batch,
     Eval,
+    /// multi-key arms of `execute`: MSET, MGET, DEL k never, EXISTS k never, FLUSHDB, FLUSHALL
+    Multi,
 }
 #[derive(Clone, Debug)]
 struct Step {
@@ -574,9 +607,13 @@ struct Step {
     iters: u64,
     yield_before: bool,
     delay_ms: u64,
+    /// scripts 0-2: call EVALSHA with the digest SCRIPT LOAD returned (shared script cache)
+    evalsha: bool,
+    /// Via::Multi: 0 MSET, 1 MGET, 2 DEL [k, never], 3 EXISTS [k, never], 4 FLUSHDB, 5 FLUSHALL
+    multi: u8,
 }
 fn step(via: Via, items: Vec<(usize, Prim)>) -> Step {
-    Step { via, items, script: 0, iters: 0, yield_before: false, delay_ms: 0 }
+    Step { via, items, script: 0, iters: 0, yield_before: false, delay_ms: 0, evalsha: false, multi: 0 }
 }
 #[derive(Clone, Copy, Debug, PartialEq)]
 enum Mode {
@@ -585,8 +622,27 @@ enum Mode {
     FastOnly,
 }
 
+/// largest value size of this run (quick 64 KiB, thorough 256 KiB)
+static BIG: AtomicU64 = AtomicU64::new(65536);
 fn gen_value(rng: &mut Rng, client: usize, serial: &mut u64) -> Vec<u8> {
     *serial += 1;
+    let c = rng.gen_range(0..1000);
+    if c < 25 {
+        return Vec::new(); // the empty string is a value
+    }
+    if c < 45 {
+        return b"same".to_vec(); // repeated identical content
+    }
+    if c < 70 {
+        // sizes at and around allocator / buffer / optimisation thresholds, unique by prefix
+        const SIZES: [usize; 15] = [15, 16, 17, 63, 64, 65, 255, 256, 257, 1023, 1024, 1025, 4095, 4096, 4097];
+        let n = if c < 64 { SIZES[rng.gen_range(0..SIZES.len())] } else if c < 69 { 8191 + rng.gen_range(0..3) } else { (if rng.gen_bool(0.25) { BIG.load(Ordering::Relaxed) as usize } else { 65536 }) - 1 + rng.gen_range(0..3) };
+        let mut v = format!("c{}v{}:", client, serial).into_bytes();
+        let fill = (b'a' + (*serial % 26) as u8) as u8;
+        while v.len() < n { v.push(fill); }
+        v.truncate(n.max(1));
+        return v;
+    }
     if rng.gen_bool(0.4) {
         format!("{}", (client as u64 + 1) * 100_000 + *serial).into_bytes()
     } else if rng.gen_bool(0.03) {
@@ -713,6 +769,49 @@ fn gen_ttl_step(rng: &mut Rng, mode: Mode, nkeys: usize) -> Step {
     }
 }
 
+/// Route some commands through the other entry arms that reach the same key: MSET / MGET,
+/// the multi-key DEL / EXISTS fan-out (with a never-written second key, so the count is the
+/// key's own), EVALSHA with the digest of SCRIPT LOAD, FLUSHDB / FLUSHALL, and pipeline batches
+/// padded with filler keys to 15..128 entries.
+fn diversify(rng: &mut Rng, st: &mut Step, kinds: &[Kind], allow_flush: bool) {
+    let nk = kinds.len();
+    let strs: Vec<usize> = (0..nk).filter(|k| kinds[*k] == Kind::Str).collect();
+    match st.via {
+        Via::Eval if st.script <= 2 => st.evalsha = rng.gen_bool(0.5),
+        Via::Generic => {
+            let (k, p) = st.items[0].clone();
+            if allow_flush && rng.gen_range(0..1000) < 4 {
+                st.via = Via::Multi;
+                st.multi = if rng.gen_bool(0.5) { 4 } else { 5 };
+                st.items = (0..nk).map(|k| (k, Prim::Flush)).collect();
+            } else if matches!(p, Prim::Get | Prim::Set(_)) && kinds[k] == Kind::Str && rng.gen_bool(0.25) {
+                st.via = Via::Multi;
+                st.multi = if matches!(p, Prim::Get) { 1 } else { 0 };
+                for _ in 0..rng.gen_range(0..3) {
+                    let k2 = strs[rng.gen_range(0..strs.len())];
+                    let p2 = match &p { Prim::Get => Prim::Get, Prim::Set(v) => { let mut w = v.clone(); w.push(b'~'); Prim::Set(w) } _ => unreachable!() };
+                    st.items.push((k2, p2));
+                }
+            } else if matches!(p, Prim::Del | Prim::Exists) && rng.gen_bool(0.35) {
+                st.via = Via::Multi;
+                st.multi = if matches!(p, Prim::Del) { 2 } else { 3 };
+            }
+        }
+        Via::Batch if rng.gen_bool(0.08) => {
+            const SIZES: [usize; 7] = [15, 16, 17, 63, 64, 65, 128];
+            let n = SIZES[rng.gen_range(0..SIZES.len())];
+            let is_get = matches!(st.items[0].1, Prim::Get);
+            let mut f = 0;
+            while st.items.len() < n {
+                let pos = rng.gen_range(0..=st.items.len());
+                st.items.insert(pos, (nk + 2 + f % NFILL, if is_get { Prim::Get } else { Prim::Set(format!("fill{}", f).into_bytes()) }));
+                f += 1;
+            }
+        }
+        _ => {}
+    }
+}
+
 /// The same conditional write for every client (own value), for first-writer races on key 0.
 fn race_prim(rng: &mut Rng, kind: Kind, which: u32, client: usize, serial: &mut u64) -> Prim {
     match kind {
@@ -767,6 +866,7 @@ fn cmd_of(key: &str, p: &Prim) -> Command {
         Prim::Ttl => Command::Ttl(k),
         Prim::Pttl => Command::Pttl(k),
         Prim::GetEx(o) => Command::GetEx { key: k, ex: if let GetExOpt::Ex(x) = o { Some(*x as i64) } else { None }, px: if let GetExOpt::Px(x) = o { Some(*x as i64) } else { None }, exat: None, pxat: None, persist: *o == GetExOpt::Persist },
+        Prim::Flush => Command::FlushDb,
         Prim::Advance(_) => unreachable!("the clock is moved by the harness, not by a command"),
     }
 }
@@ -850,6 +950,29 @@ async fn run_step(state: &Node, keys: &[String], st: &Step) -> Done {
                 push(*k, p, r);
             }
         }
+        Via::Multi => {
+            let first = st.items[0].0;
+            let cmd = match st.multi {
+                0 => Command::MSet(st.items.iter().map(|(k, p)| (keys[*k].clone(), match p { Prim::Set(v) => SDS::new(v.clone()), _ => unreachable!() })).collect()),
+                1 => Command::MGet(st.items.iter().map(|(k, _)| keys[*k].clone()).collect()),
+                2 => Command::Del(if first % 2 == 0 { vec![keys[first].clone(), NEVER_KEY.to_string()] } else { vec![NEVER_KEY.to_string(), keys[first].clone()] }),
+                3 => Command::Exists(if first % 2 == 0 { vec![keys[first].clone(), NEVER_KEY.to_string()] } else { vec![NEVER_KEY.to_string(), keys[first].clone()] }),
+                4 => Command::FlushDb,
+                _ => Command::FlushAll,
+            };
+            inv = stamp();
+            let r = state.execute(&cmd).await;
+            ret = stamp();
+            via = format!("execute({})", ["MSET", "MGET", "DEL k never", "EXISTS k never", "FLUSHDB", "FLUSHALL"][st.multi.min(5) as usize]);
+            match (st.multi, &r) {
+                (1, RespValue::Array(Some(a))) if a.len() == st.items.len() => {
+                    for ((k, p), x) in st.items.iter().zip(a.iter()) { push(*k, p, canon(p, x)); }
+                }
+                (1, other) => { for (k, p) in st.items.iter() { push(*k, p, Rep::Other(format!("{:?}", other))); } }
+                // one reply for the whole command: OK (MSET, FLUSH*), or the count for k alone
+                _ => { for (k, p) in st.items.iter() { push(*k, p, canon(p, &r)); } }
+            }
+        }
         Via::Eval => {
             let k = st.items[0].0;
             let it = SDS::new(st.iters.to_string().into_bytes());
@@ -862,11 +985,16 @@ async fn run_step(state: &Node, keys: &[String], st: &Step) -> Done {
                 5 => (format!("{}return redis.call('GET', KEYS[1])", BUSY), vec![it]),
                 _ => (format!("{}return redis.call('LPUSH', KEYS[1], ARGV[2])", BUSY), vec![it, match &st.items[0].1 { Prim::LPush(v) => SDS::new(v.clone()), _ => unreachable!() }]),
             };
-            let cmd = Command::Eval { script, keys: vec![keys[k].clone()], args };
+            // keys[len-3..] hold the SHA1 digests SCRIPT LOAD returned for scripts 0, 1, 2
+            let cmd = if st.evalsha && st.script <= 2 {
+                Command::EvalSha { sha1: keys[keys.len() - 3 + st.script as usize].clone(), keys: vec![keys[k].clone()], args }
+            } else {
+                Command::Eval { script, keys: vec![keys[k].clone()], args }
+            };
             inv = stamp();
             let r = state.execute(&cmd).await;
             ret = stamp();
-            via = format!("execute(EVAL script {}{})", st.script, if st.iters > 0 { format!(", busy loop {} iterations", st.iters) } else { String::new() });
+            via = format!("execute({} script {}{})", if st.evalsha && st.script <= 2 { "EVALSHA" } else { "EVAL" }, st.script, if st.iters > 0 { format!(", busy loop {} iterations", st.iters) } else { String::new() });
             let first = &st.items[0].1;
             match &r {
                 RespValue::Array(Some(a)) if a.len() == 2 && st.script <= 1 => {
@@ -926,6 +1054,13 @@ struct TtlPlan {
     before_reads: Vec<u64>,     // [round]
 }
 
+#[derive(Clone, Copy, Debug)]
+struct NodeCfg {
+    pool: (usize, usize), // response pool (capacity, prewarm); default (256, 64)
+    adaptive: bool,       // ShardConfig::with_adaptive(): adaptive actor beside the shards
+    evict_on_move: bool,  // ttl cases: call evict_expired_all_shards() after each clock move
+}
+
 struct CaseRun {
     windows: Vec<Window>,
     panicked: Option<String>,
@@ -952,20 +1087,30 @@ fn state_of_read(kind: Kind, r: &Rep) -> State {
 
 fn run_case(rt: &tokio::runtime::Runtime, nshards: usize, keys: &[String], kinds: &[Kind], mode: Mode,
             scripts: &[Vec<Vec<Step>>], rounds: usize, wave: bool,
-            sabs: &[Vec<Vec<SabStep>>], padding: usize, ttl: Option<&TtlPlan>) -> CaseRun {
+            sabs: &[Vec<Vec<SabStep>>], padding: usize, ttl: Option<&TtlPlan>, ncfg: NodeCfg) -> CaseRun {
     let nk = keys.len();
-    // indices nk and nk+1: the junk key and the padding key (no windows)
+    // indices nk, nk+1: the junk key and the padding key; then NFILL filler keys; the last three
+    // entries are the digests SCRIPT LOAD returns (none of these has a window)
     let mut allkeys = keys.to_vec();
     allkeys.push(JUNK_KEY.to_string());
     allkeys.push(PAD_KEY.to_string());
-    let keys: Arc<Vec<String>> = Arc::new(allkeys);
+    for f in 0..NFILL {
+        allkeys.push(format!("c02-fill-{}", f));
+    }
     let kinds: Vec<Kind> = kinds.to_vec();
     let scripts: Arc<Vec<Vec<Vec<Step>>>> = Arc::new(scripts.to_vec());
     let sabs: Arc<Vec<Vec<Vec<SabStep>>>> = Arc::new(sabs.to_vec());
     let ttl: Option<Arc<TtlPlan>> = ttl.map(|t| Arc::new(t.clone()));
     rt.block_on(async move {
         let clock = Clock::new();
-        let state = node(nshards, &clock);
+        let state = node_with(nshards, &clock, ncfg.pool, ncfg.adaptive);
+        // SCRIPT LOAD goes to shard 0; EVALSHA goes to the key's shard: the script cache is shared
+        let mut allkeys = allkeys;
+        for sc in [SCRIPT_GETSET, SCRIPT_INCRGET, SCRIPT_INCR] {
+            let r = state.execute(&Command::ScriptLoad(sc.to_string())).await;
+            allkeys.push(match r { RespValue::BulkString(Some(b)) => String::from_utf8_lossy(&b).into_owned(), other => format!("SCRIPT LOAD answered {:?}", other) });
+        }
+        let keys: Arc<Vec<String>> = Arc::new(allkeys);
         let vnow = Arc::new(AtomicU64::new(0)); // the node's virtual time (ms since it was created)
         let nclients = scripts.len();
         let mut windows: Vec<Window> = Vec::new();
@@ -984,6 +1129,8 @@ fn run_case(rt: &tokio::runtime::Runtime, nshards: usize, keys: &[String], kinds
                 let scripts = scripts.clone();
                 let barrier = barrier.clone();
                 let (ttl, clock, vnow) = (ttl.clone(), clock.clone(), vnow.clone());
+                let evict_on_move = ncfg.evict_on_move;
+                let adaptive = ncfg.adaptive;
                 handles.push(tokio::spawn(async move {
                     barrier.wait().await;
                     let mut out = Vec::new();
@@ -1001,11 +1148,18 @@ fn run_case(rt: &tokio::runtime::Runtime, nshards: usize, keys: &[String], kinds
                                     let inv = stamp();
                                     clock.advance(d);
                                     let t = vnow.fetch_add(d, Ordering::SeqCst) + d;
+                                    if evict_on_move {
+                                        // the TTL manager's sweep: EvictExpired on every shard
+                                        let _ = state.evict_expired_all_shards().await;
+                                    }
                                     let ret = stamp();
                                     advances.push((inv, ret, t));
                                 }
                                 barrier.wait().await;
                             }
+                        }
+                        if adaptive {
+                            for (k, p) in st.items.iter() { state.observe_access(&keys[*k], !is_read(p)); }
                         }
                         let t0 = std::time::Instant::now();
                         out.push(run_step(&state, &keys, st).await);
@@ -1111,6 +1265,9 @@ fn run_case(rt: &tokio::runtime::Runtime, nshards: usize, keys: &[String], kinds
                     let inv = stamp();
                     clock.advance(d);
                     let t = vnow.fetch_add(d, Ordering::SeqCst) + d;
+                    if ncfg.evict_on_move {
+                        let _ = state.evict_expired_all_shards().await;
+                    }
                     advances.push((inv, stamp(), t));
                 }
             }
@@ -1345,7 +1502,7 @@ fn do_case(seed: u64, i: u64, cfg: &Cfg, rt: &tokio::runtime::Runtime, rt1: &tok
                         let p = gen_generic_prim(&mut rng, kinds[k], c, &mut serial);
                         if !is_read(&p) && !matches!(p, Prim::Del | Prim::Set(_)) || rng.gen_bool(0.1) { break p; }
                     };
-                    let mut s = if kinds[k] == Kind::Str && rng.gen_bool(0.15) { let mut s = step(Via::Eval, vec![(k, Prim::IncrBy(1))]); s.script = 2; s } else { step(Via::Generic, vec![(k, p)]) };
+                    let mut s = if kinds[k] == Kind::Str && rng.gen_bool(0.25) { let mut s = step(Via::Eval, vec![(k, Prim::IncrBy(1))]); s.script = 2; s } else { step(Via::Generic, vec![(k, p)]) };
                     if j == 0 { s.delay_ms = 40 + 10 * c as u64; }
                     v.push(s);
                 }
@@ -1362,6 +1519,7 @@ fn do_case(seed: u64, i: u64, cfg: &Cfg, rt: &tokio::runtime::Runtime, rt1: &tok
                 (0..n).map(|_| if ttl { gen_ttl_step(&mut rng, mode, nkeys) } else { gen_step(&mut rng, mode, &kinds, c, &mut serial, cfg.eval) }).collect()
             }).collect()
         }).collect();
+        for c in scripts.iter_mut() { for r in c.iter_mut() { for st in r.iter_mut() { diversify(&mut rng, st, &kinds, true); } } }
         if ttl {
             const DELTAS: [u64; 14] = [1, 49, 50, 51, 99, 100, 101, 149, 150, 151, 500, 999, 1000, 2000];
             let mut delta = |rng: &mut Rng| if rng.gen_bool(0.4) { 0 } else { DELTAS[rng.gen_range(0..DELTAS.len())] };
@@ -1449,8 +1607,20 @@ fn do_case(seed: u64, i: u64, cfg: &Cfg, rt: &tokio::runtime::Runtime, rt1: &tok
         }
     }
 
+    if sabotage {
+        // the padding client knows its key's value exactly: no FLUSH in these cases
+        for c in scripts.iter_mut() { for r in c.iter_mut() { for st in r.iter_mut() {
+            if st.via == Via::Multi && st.multi >= 4 { st.multi = 2; st.items.truncate(1); st.items[0].1 = Prim::Del; }
+        } } }
+    }
+    const POOLS: [(usize, usize); 10] = [(1, 0), (1, 1), (2, 1), (3, 2), (4, 4), (8, 3), (63, 63), (64, 64), (65, 64), (256, 0)];
+    let ncfg = NodeCfg {
+        pool: if rng.gen_bool(0.5) { (256, 64) } else { POOLS[rng.gen_range(0..POOLS.len())] },
+        adaptive: rng.gen_range(0..100) < 8,
+        evict_on_move: ttl && rng.gen_bool(0.3),
+    };
     let the_rt = if single_worker { rt1 } else { rt };
-    let run = match std::panic::catch_unwind(std::panic::AssertUnwindSafe(|| run_case(the_rt, nshards, &keys, &kinds, mode, &scripts, rounds, wave, &sabs, padding, ttl_plan.as_ref()))) {
+    let run = match std::panic::catch_unwind(std::panic::AssertUnwindSafe(|| run_case(the_rt, nshards, &keys, &kinds, mode, &scripts, rounds, wave, &sabs, padding, ttl_plan.as_ref(), ncfg))) {
         Ok(r) => r,
         Err(_) => CaseRun { windows: vec![], panicked: Some("panic while driving the case".into()), abandoned: 0, abandoned_pooled: 0, completed_before_abandon: 0, padding_ops: 0, longest_ms: 0 },
     };
@@ -1462,7 +1632,10 @@ fn do_case(seed: u64, i: u64, cfg: &Cfg, rt: &tokio::runtime::Runtime, rt1: &tok
     count((if wave { "release:wave" } else { "release:free" }).into());
     count((if single_worker { "runtime:1-worker" } else { "runtime:multi-worker" }).into());
     count((if sabotage { "sabotage:yes" } else { "sabotage:no" }).into());
-    for c in scripts.iter() { for r in c.iter() { for s in r.iter() { count(format!("via:{:?}", s.via)); for (_, p) in s.items.iter() { count(format!("prim:{}", prim_name(p))); } } } }
+    count(format!("pool(cap,prewarm):{:?}", ncfg.pool));
+    if ncfg.adaptive { count("adaptive_actor:on".into()); }
+    if ncfg.evict_on_move { count("evict_expired_all_shards_after_clock_move:yes".into()); }
+    for c in scripts.iter() { for r in c.iter() { for s in r.iter() { count(format!("via:{:?}", s.via)); if s.via == Via::Multi { count(format!("multi:{}", ["MSET", "MGET", "DEL-fanout", "EXISTS-fanout", "FLUSHDB", "FLUSHALL"][s.multi.min(5) as usize])); } if s.evalsha { count("evalsha:yes".into()); } if s.via == Via::Batch && s.items.len() > 3 { count(format!("batch_size:{}", s.items.len())); } for (_, p) in s.items.iter() { if let Prim::Set(v) | Prim::SetNx(v) | Prim::GetSet(v) = p { if v.is_empty() { count("value_size:0".into()); } else if v.len() >= 63 { count(format!("value_size:{}", match v.len() { 0..=257 => "63-257", 258..=1025 => "1023-1025", 1026..=4097 => "4095-4097", 4098..=9000 => "8 KiB", _ => "big" })); } } } for (_, p) in s.items.iter() { count(format!("prim:{}", prim_name(p))); } } } }
     for (k, kd) in keys.iter().zip(kinds.iter()) {
         count((if k.contains('{') || k.contains('}') { "keyshape:braces" } else if !k.is_ascii() { "keyshape:multibyte" } else if [7, 8, 9, 16, 17].contains(&k.len()) { "keyshape:block-boundary" } else { "keyshape:plain" }).into());
         count(format!("keykind:{:?}", kd));
@@ -1583,6 +1756,7 @@ fn main() {
         "one case = one concurrent run of the real ShardedActorState on a {}-worker (20-40% of cases: 1-worker) tokio runtime: 2..{} client tasks, 1-4 rounds separated by barriers, <= 14 commands per round over 1-3 shared keys (string / list / set / hash; names plain, hash-tag shapes, multi-byte UTF-8, 7/8/9/16/17 bytes), shard counts {}, entry points execute (GET, SET [NX|XX] [GET], SETNX, GETSET, GETDEL, INCR/DECR/INCRBY/DECRBY, APPEND, SETRANGE, DEL, EXISTS, LPUSH/RPUSH/LPOP/RPOP/LRANGE, SADD/SREM/SMEMBERS, HSET/HDEL/HGETALL{}) / fast_* / pooled_fast_* / fast_batch_*_pipeline; mixed path classes on > 1 shard: {}. Classes: ordinary mix; FIRST-WRITER RACE (~{}% of cases: in a wave all clients release the same conditional write - SETNX, SET NX [GET], GETSET, INCR, LPUSH, SADD of one member, HSET of one field - on key 0 at the same instant, interleaved with waves in which one client DELs / GETDELs the key while the others race again); CANCELLATION (~{}%: saboteur tasks abandon pooled / fast / batch / generic / EVAL requests mid-flight - poll once + drop, timeout(0), JoinHandle::abort; an abandoned write is a PENDING operation of its window, the search tries every subset; then 72-96 exactly-checked pooled requests cycle the 64-slot response pool); TTL (~{}% of cases: string keys with deadlines on a harness-driven clock that moves only between waves, when nothing is in flight - the move is an operation of every key's window; SET PX/EX/KEEPTTL, EXPIRE/PEXPIRE [NX|XX|GT|LT], PERSIST, TTL/PTTL, GETEX, plain SET of three possible values through generic / fast / pooled / batch paths, reads through every read path before and after each deadline, a directed 'SET v PX 150 | SET v by every write path | +200 ms | GET by every read path' round in 40% of them; the barrier reads GET and PTTL); SLOW SHARD (every {}th case, run in parallel threads: a Lua busy loop calibrated to 0.3 / 1.6 / 3.2{} s occupies the shard of key 0 - alone, or followed by an INCR / GET / LPUSH, sometimes a second long script - while 2-4 other clients queue non-idempotent generic commands and INCR scripts on that key; a command applied twice, or answered with an error the code does not document, makes the window non-linearizable). Per round and key one window (incl. the barrier read of the whole value) judged by Coq lin_check and by the harness's own search; non-trivial = at least one window in which two operations on the same key overlap in time; distinct by the printed histories. Thread scheduling is NOT derived from the seed: the scripts of case i are (seed,i)-determined, the interleavings are explored, not replayable bit for bit; a failing window is stored in full in the replay file and re-judged by --replay",
         workers, cfg.max_clients, if cfg.wide { "{1,2,4,16}" } else { "{1,4}" }, if cfg.eval { ", EVAL scripts GET+SET / INCR+GET / INCR" } else { "" },
         if cfg.mixed_multishard { "enabled" } else { "disabled (one class per case)" }, cfg.race_pct, cfg.sab_pct, cfg.ttl_pct, cfg.slow_every, if cfg.slow_long { " / 6" } else { "" });
+    BIG.store(args.get("big", 65536), Ordering::Relaxed);
     let rt = tokio::runtime::Builder::new_multi_thread().worker_threads(workers).enable_all().build().unwrap();
     // all tasks of a case on ONE worker thread: interleaving only at await points
     let rt1 = tokio::runtime::Builder::new_multi_thread().worker_threads(1).enable_all().build().unwrap();
